@@ -20,6 +20,10 @@ def run(chk, replay=None):
         r = core.model_check("montgomery/MontCIOS.tla", cfg, workers=4, timeout=600, expect_error=True)
         chk.add_mc(r, invariants_expected_to_hold=False)
         chk.notes.append({"model": cfg, "branch_reachable": inv in r["violated"]})
+    # ---- BEGIN inductive block (growth item "ind": unbounded results, thorough tier only) ----
+    if thorough and not replay:
+        _inductive(chk)
+    # ---- END inductive block ----
     # (I) input space
     shapes = os.path.join(w, "shapes.ndjson")
     nshapes, r = core.gen_shapes("montgomery/MontShapes.tla", "MontShapes.cfg", shapes)
@@ -47,3 +51,40 @@ def run(chk, replay=None):
     chk.assumptions += ["TLC, SANY, CommunityModules Json/IOUtils/SequencesExt", "spec/lib/BigNat (self-tested against Python integers in setup)",
                         "harness encoding of u64 words into base-4096 digits",
                         "moduli odd, <= 500 bits; residues < n (documented preconditions)"]
+
+
+
+# ---- BEGIN inductive block (growth item "ind") ----
+def _inductive(chk):
+    """The Montgomery loop for a SYMBOLIC word base: T Bi = xlo y + K n, 0 <= T < 2n, exact division by B, and at the
+    end res < n with res B^i = (x mod B^i) y (mod n), for every base B >= 1, every modulus n >= 1 with n ninv = -1
+    (mod B) and any number of words (TLAPS, MontProofs.tla on the number-level restatement MontInd.tla); TLC link: the
+    word-level model MontCIOS.tla (carries, overflow correction, conditional subtraction) implements MontInd step by
+    step; Apalache counterexamples / failed proofs for the broken variants.
+    Anything unexpected here is a tool error (exit 2), never a violation."""
+    if not core.ind_enabled():
+        chk.notes.append("inductive block skipped (VERIF_NO_IND=1)")
+        return
+    ind = {"claim": "MontInd!IndInv (Pre, Window 0 <= T < 2n, Split, Congr, ResultOK) is inductive for every word base B >= 1 "
+                    "and unbounded integers (TLAPS); every step of the word-level MontCIOS.tla (B = 4 with 2 and 3 words, "
+                    "B = 8 with 2 words) is a step of MontInd and x is fully consumed at the end (TLC)",
+           "runs": []}
+    for cfg in ("MC_MontInd_4_2.cfg", "MC_MontInd_8_2.cfg", "MC_MontInd_4_3.cfg"):
+        chk.add_mc(core.model_check("montgomery/MC_MontInd.tla", cfg, workers=4, timeout=1700))
+    ind["runs"].append(core.ind_expect(core.tlapm("montgomery/MontProofs.tla", timeout=900), "ok", "MontProofs"))
+    bad = core.ind_expect(core.tlapm("montgomery/MontProofsBad.tla", timeout=900, retries=0), "failed", "MontProofsBad")
+    if bad["failed"] < 2:
+        raise core.ToolError("MontProofsBad: %d failed obligations, expected both false claims to fail" % bad["failed"])
+    ind["runs"].append(bad)
+    A = "montgomery/MontInd.tla"
+    for kw, want in ((dict(init="Init", length=0), "ok"),
+                     (dict(init="IndInit", next="NextBadM", length=1), "counterexample"),     # m without the factor ninv
+                     (dict(init="IndInit", next="NextBadF", length=1), "counterexample")):    # no conditional subtraction
+        ind["runs"].append(core.ind_expect(core.apalache(A, "IndInv", cinit="CInit16", timeout=900, **kw), want,
+                                           "MontInd %s" % kw))
+    chk.cov["inductive"] = ind
+    chk.notes.append("inductive: Montgomery loop invariant proved for a symbolic word base (tlapm, %d obligations, %.0fs)" %
+                     (ind["runs"][0]["obligations"], ind["runs"][0]["wall_s"]))
+    chk.assumptions.append("tlapm (Z3, Zenon, Isabelle, PTL back ends) and apalache-mc/Z3 for the symbolic-base Montgomery "
+                           "invariant; MontInd.tla restates MontCIOS.tla at the level of numbers (linked by TLC: MC_MontInd.tla)")
+# ---- END inductive block ----
